@@ -3,7 +3,6 @@ package dmodel
 import (
 	"fmt"
 	"math/rand/v2"
-	"sort"
 	"strings"
 
 	"ariga.io/atlas/sql/schema"
@@ -1169,14 +1168,14 @@ func Kinds(edits []Edit) []string {
 	return sortedKeys(set)
 }
 
-// Resolve replays a walk: starting from base it looks every id up in the catalogue of the current
-// model and applies it. It returns the final model, or an error naming the first id that is not
+// Resolve replays a walk: starting from base it looks every id up in the catalogue (Catalogue, then
+// CaseCatalogue) of the current model and applies it. It returns the final model, or an error naming the first id that is not
 // applicable any more.
 func Resolve(base *Model, ids []string) (*Model, error) {
 	cur := base
 	for _, id := range ids {
 		var hit *Edit
-		for _, e := range Catalogue(cur) {
+		for _, e := range CatalogueAll(cur) {
 			if e.ID == id {
 				e := e
 				hit = &e
@@ -1195,26 +1194,5 @@ func Resolve(base *Model, ids []string) (*Model, error) {
 // from the kinds applicable to the current model and then an instance of that kind uniformly (so that
 // rare kinds are not drowned by column edits). It returns the ids, the kinds and the final model.
 func RandomEdits(base *Model, k int, r *rand.Rand) (ids, kinds []string, final *Model) {
-	cur := base
-	for i := 0; i < k; i++ {
-		cat := Catalogue(cur)
-		if len(cat) == 0 {
-			break
-		}
-		by := map[string][]int{}
-		for j, e := range cat {
-			by[e.Kind] = append(by[e.Kind], j)
-		}
-		ks := make([]string, 0, len(by))
-		for kd := range by {
-			ks = append(ks, kd)
-		}
-		sort.Strings(ks)
-		kd := ks[r.IntN(len(ks))]
-		e := cat[by[kd][r.IntN(len(by[kd]))]]
-		cur = e.Apply(cur)
-		ids = append(ids, e.ID)
-		kinds = append(kinds, e.Kind)
-	}
-	return ids, kinds, cur
+	return randomEdits(base, k, r, Catalogue)
 }
